@@ -2,6 +2,7 @@ package rewriter
 
 const (
 	cstIterVar  = "ɪʇ" // it۰
+	cstArrVar   = "ɐɹ" // arr
 	cstMoveNext = "MoveNext"
 	cstCurrent  = "Current"
 
